@@ -129,6 +129,10 @@ pub struct C11Scenario {
     /// demanded of them - only of the files around them
     #[serde(default)]
     pub maybe_bad: Vec<String>,
+    /// darklua runs with trace-level logging enabled (debug aids such as the AST dump
+    /// written at the output location before code generation become active)
+    #[serde(default)]
+    pub trace_logs: bool,
 }
 
 // ---------------------------------------------------------------- C10
